@@ -34,7 +34,7 @@ var (
 
 // caseTimeout bounds one case: the real code looping or blocking forever is an observation ("TIMEOUT"),
 // not a hung check. The abandoned goroutine is left behind.
-var caseTimeout = 20 * time.Second
+var caseTimeout = 120 * time.Second
 
 func runCase(line string) string {
 	ch := make(chan string, 1)
@@ -124,7 +124,7 @@ func main() {
 			}
 			out := runCase(line)
 			fmt.Fprintf(w, "%s\t%s\n", line, out)
-			if strings.HasPrefix(out, "TIMEOUT") {
+			if strings.Contains(out, "TIMEOUT") {
 				// the abandoned goroutine may be spinning: report this case and stop generating
 				w.Flush()
 				os.Exit(0)
